@@ -202,6 +202,22 @@ def run_convert(ctx, pool):
                 break
         else:
             back.append((n, k, j))
+    # conversion never yields a key with *less* than the JWK had: a member that is present but is not decodable text is
+    # not read as absent — the conversion fails (a private key must not quietly become a public or a CRT-only one)
+    junk_ops = []
+    for n, k in keys:
+        prv = [m for m in ("d", "p", "q", "dp", "dq", "qi", "x", "y", "n", "e") if m in k]
+        for m in prv:
+            for junk in ("!!", "A", 5):
+                junk_ops.append(("ossl.roundtrip", {"jwk": dict(k, **{m: junk}), "_n": n, "_m": m}))
+    for (o, a), r in zip(junk_ops, ctx.real([(o, {"jwk": a["jwk"]}) for o, a in junk_ops])):
+        ctx.evaluations += 1
+        if "crash" in r:
+            ctx.pfails.append(("crash:ossl.roundtrip", r["crash"], o, {"jwk": a["jwk"]}, r))
+        elif r.get("imported"):
+            ctx.pfails.append(("convert:undecodable-member", "key %s with %s = %s is converted to an OpenSSL key (member taken for absent): %s"
+                               % (a["_n"], a["_m"], json.dumps(a["jwk"][a["_m"]]), json.dumps(r.get("jwk"))[:200]), o, {"jwk": a["jwk"]}, r))
+    ctx.count("undecodable-member conversions", len(junk_ops))
     eq = ctx.real([("jwk.eql", {"a": k, "b": j}) for n, k, j in back])
     for (n, k, j), r in zip(back, eq):
         ctx.evaluations += 1
